@@ -12,6 +12,17 @@ CLAIMED = {
   text="Static table agreement + decodability over the whole log-type universe: LogType constants = cases of String/FromString (inverse by constant evaluation) = cases of HydrateLog = SQL enum labels = handle_log branches; every Log constructor's payload type is the one HydrateLog rebuilds; interface-typed payload fields have a decoder; clock-derived timestamps are rounded to DatePrecision; hash covers previous hash + all Log fields. Holds for every log type/target at once (finite tables), which sampling tests cannot give; byte-level JSON equality is not decided.",
   design_ref="DESIGN.md §3 C13",
   technique="AST/constant table extraction + SSA provenance + lexical SQL scan (static analysis)"),
+
+ "C02": dict(
+  category="other",
+  text="Decides, on every CFG path (hence for every schedule), the structural mechanism serializability rests on: balance read, execution and log hand-off happen with the account lock held; the lock is released only after the persistence signal of the appended log; the Read/Write lock sets derive from ResolveResources of the executed machine through Filter(not world) only; every switch clause of ResolveResources that can yield an account records it; lock compatibility matrix; production uses NewDefaultLocker. Necessary conditions of the property, not serializability itself (value-level, argued in DESIGN.md).",
+  design_ref="DESIGN.md §3 C02",
+  technique="path state machine over SSA CFGs (lock span), SSA provenance, sibling-clause rule, table extraction (static analysis)"),
+ "C15": dict(
+  category="other",
+  text="Lock-manager discipline decided on all paths from every entry point of the package: guarded state only touched with the mutex held (lock-set machine with inlining), compatibility matrix and release symmetry as extracted tables, every release re-examines the queue before the mutex is dropped, the cancellation arm reconciles a concurrent grant under the mutex. Schedules are covered because the rules quantify over program paths; fairness is not decided.",
+  design_ref="DESIGN.md §3 C15",
+  technique="lock-set path analysis over SSA + table extraction (static analysis)"),
 }
 
 NOT_APPLICABLE = {
